@@ -151,7 +151,7 @@ fn touch_list0(l: res::List<0>) {
     touch_list(l);
 }
 
-pub const DECODERS: usize = 30;
+pub const DECODERS: usize = 34;
 
 /// Run decoder `i` on `frame`, touching every public accessor of the result.
 pub fn decode(i: usize, frame: Frame, sel: u16, reach: &mut Reach) {
@@ -321,6 +321,54 @@ pub fn decode(i: usize, frame: Frame, sel: u16, reach: &mut Reach) {
             let r = c::Queue::song(c::SongId(1)).response(frame);
             note(reach, &r);
         }
+        // list decoders whose tags are derived from the reply itself: a field name of the frame in
+        // its own / flipped / lower / upper letter case, as parsed tag and as hand-built catch-all
+        29..=32 => {
+            let keys: Vec<String> = frame.fields().map(|(k, _)| k.to_string()).collect();
+            if keys.is_empty() {
+                return;
+            }
+            let pick = |n: usize| keys[(sel as usize + n * 7) % keys.len()].clone();
+            let recase = |s: String, how: usize| -> String {
+                match how % 4 {
+                    0 => s,
+                    1 => s.to_lowercase(),
+                    2 => s.to_uppercase(),
+                    _ => s.chars().map(|c| if c.is_ascii_uppercase() { c.to_ascii_lowercase() } else { c.to_ascii_uppercase() }).collect(),
+                }
+            };
+            let mk = |name: String, other: bool| -> Tag {
+                if other {
+                    Tag::Other(name.into_boxed_str())
+                } else {
+                    Tag::try_from(name.as_str()).unwrap_or(Tag::Other(name.into_boxed_str()))
+                }
+            };
+            let how = (sel as usize) >> 3;
+            let primary = mk(recase(pick(0), how), i % 2 == 0);
+            let g1 = mk(recase(pick(1), how >> 2), i % 2 == 1);
+            let g2 = mk(recase(pick(2), how >> 4), (sel >> 9) & 1 == 1);
+            if i <= 30 {
+                let r = c::List::new(primary).group_by([g1]).response(frame);
+                note(reach, &r);
+                if let Ok(l) = r {
+                    touch_list(l);
+                }
+            } else {
+                let r = c::List::new(primary.clone()).group_by([g1.clone(), g2]).response(frame.clone());
+                note(reach, &r);
+                if let Ok(l) = r {
+                    touch_list(l);
+                }
+                let r = c::CountGrouped::new(g1).response(frame.clone());
+                note(reach, &r);
+                let r = c::List::new(primary).response(frame);
+                note(reach, &r);
+                if let Ok(l) = r {
+                    touch_list0(l);
+                }
+            }
+        }
         _ => {
             // commands with a unit response accept anything
             let _ = c::Ping.response(frame.clone());
@@ -334,23 +382,29 @@ pub fn decode(i: usize, frame: Frame, sel: u16, reach: &mut Reach) {
 /// Typed lists over a frame vector of any length (count mismatches in both directions).
 pub fn decode_lists(frames: &[Frame], sel: u16, reach: &mut Reach) {
     let fr = || frames.to_vec();
-    let arity = 1 + (sel as usize) % 8;
+    let _ = sel;
     macro_rules! run {
         ($l:expr) => {{
             let r = $l.responses(fr());
             note(reach, &r);
         }};
     }
-    match arity {
-        1 => run!((c::Status,)),
-        2 => run!((c::Status, c::Stats)),
-        3 => run!((c::Stats, c::Status, c::CurrentSong)),
-        4 => run!((c::Ping, c::Status, c::Queue, c::Stats)),
-        5 => run!((c::Status, c::Stats, c::CurrentSong, c::GetPlaylists, c::ListChannels)),
-        6 => run!((c::Status, c::Stats, c::CurrentSong, c::GetPlaylists, c::ListChannels, c::Ping)),
-        7 => run!((c::Ping, c::Ping, c::Ping, c::Ping, c::Ping, c::Ping, c::Status)),
-        _ => run!((c::Ping, c::Status, c::Ping, c::Stats, c::Ping, c::CurrentSong, c::Ping, c::Queue)),
-    }
+    // every arity against every frame count the generator produces (0-9)
+    run!((c::Status,));
+    run!((c::Status, c::Stats));
+    run!((c::Stats, c::Status, c::CurrentSong));
+    run!((c::Ping, c::Status, c::Queue, c::Stats));
+    run!((c::Status, c::Stats, c::CurrentSong, c::GetPlaylists, c::ListChannels));
+    run!((c::Status, c::Stats, c::CurrentSong, c::GetPlaylists, c::ListChannels, c::Ping));
+    run!((c::Ping, c::Ping, c::Ping, c::Ping, c::Ping, c::Ping, c::Status));
+    run!((c::Ping, c::Status, c::Ping, c::Stats, c::Ping, c::CurrentSong, c::Ping, c::Queue));
+    run!((c::Ping, c::Ping));
+    run!((c::Ping, c::Ping, c::Ping));
+    run!((c::Ping, c::Ping, c::Ping, c::Ping));
+    run!((c::Ping, c::Ping, c::Ping, c::Ping, c::Ping));
+    run!((c::Ping, c::Ping, c::Ping, c::Ping, c::Ping, c::Ping));
+    run!((c::Ping, c::Ping, c::Ping, c::Ping, c::Ping, c::Ping, c::Ping));
+    run!((c::Ping, c::Ping, c::Ping, c::Ping, c::Ping, c::Ping, c::Ping, c::Ping));
     for n in [0usize, 1, frames.len().saturating_sub(1), frames.len(), frames.len() + 1, 8] {
         let r = vec![c::Status; n].responses(fr());
         note(reach, &r);
@@ -552,7 +606,7 @@ pub fn property(_tier: Tier) -> Property {
         level: "exploration",
         parts: vec![Box::new(RandomPart {
             name: "totality",
-            rule: "proptest: reply of 0-9 frames (list form when != 1), 0-60 fields per frame drawn from every field name any decoder reads, the 31 tag names in several letter cases, random valid names and (1 case in 10) names outside today's key alphabet; values from dictionaries of numeric/float edges (2^32, 2^53, 2^64 +-1, 1e19, 1e309, NaN, inf, +5 ...), range, key=value and timestamp edges, random text; optional binary. Every frame goes through 30 decoders (every predefined command with a non-unit response, List<0|1|2> with expected and unexpected tags) and all accessors/iterators of the results; the frame vector goes through tuples of arity 1-8 and Vecs of length {0,1,n-1,n,n+1,8}. Oracle: catch_unwind. non-trivial = some decoder returned Ok or an invalid-value error; 'executions' counts decoder runs; the check script runs this with and without the chrono feature",
+            rule: "proptest: reply of 0-9 frames (list form when != 1), 0-60 fields per frame drawn from every field name any decoder reads, the 31 tag names in several letter cases, random valid names and (1 case in 10) names outside today's key alphabet; values from dictionaries of numeric/float edges (2^32, 2^53, 2^64 +-1, 1e19, 1e309, NaN, inf, +5 ...), range, key=value and timestamp edges, random text; optional binary. Every frame goes through 34 decoders (every predefined command with a non-unit response, List<0|1|2> with expected and unexpected tags and with tags derived from the reply's own field names in own/lower/upper/flipped case, parsed and as hand-built catch-all) and all accessors/iterators of the results; the frame vector goes through tuples of EVERY arity 1-8 and Vecs of length {0,1,n-1,n,n+1,8}. Oracle: catch_unwind. non-trivial = some decoder returned Ok or an invalid-value error; 'executions' counts decoder runs; the check script runs this with and without the chrono feature",
             cases: (40_000, 1_000_000),
             strategy: Box::new(strategy),
             check: Box::new(check),
